@@ -34,6 +34,13 @@ pub struct Case {
     /// (half of the time also of the same name) carries in ANOTHER crate of the same run
     #[serde(default)]
     pub numbering: u8,
+    /// instead of a bundled description: a generated graph of small synthetic crates. Crate i holds one
+    /// operation type `Op<i>` (a struct with `impl Operation`, a root of the registry) whose k-th field is a
+    /// `u32` (None) or has the type `Op<j>` of another crate j (Some(j)); crate 0 is the root crate. Every
+    /// crate uses the same item ids. Oracle: exactly the crates reachable from crate 0 are loaded, each
+    /// once, and the registry holds exactly their types, described field by field as generated (closed).
+    #[serde(default)]
+    pub graph: Option<Vec<Vec<Option<usize>>>>,
 }
 
 fn fixtures() -> String {
@@ -234,6 +241,94 @@ fn transform(name: &str, case: &Case) -> anyhow::Result<(Crate, usize)> {
     Ok((c, moved))
 }
 
+// ---- generated crate graphs
+fn synthetic_crate(me: usize, fields: &[Option<usize>]) -> anyhow::Result<Crate> {
+    use serde_json::json;
+    let no_generics = json!({"params": [], "where_predicates": []});
+    let item = |id: u32, name: Option<String>, inner: Value| (id.to_string(), json!({"id": id, "crate_id": 0, "name": name, "span": null, "visibility": "public", "docs": null, "links": {}, "attrs": [], "deprecation": null, "inner": inner}));
+    let mut index = serde_json::Map::new();
+    let mut paths = serde_json::Map::new();
+    let mut externals = serde_json::Map::new();
+    let mut deps: Vec<usize> = vec![];
+    let field_ids: Vec<u32> = (0..fields.len() as u32).map(|k| 100 + k).collect();
+    for (k, f) in fields.iter().enumerate() {
+        let ty = match f {
+            None => json!({"primitive": "u32"}),
+            Some(j) => {
+                if !deps.contains(j) {
+                    deps.push(*j);
+                }
+                let crate_id = 1 + deps.iter().position(|d| d == j).unwrap() as u32;
+                let pid = 200 + k as u32;
+                paths.insert(pid.to_string(), json!({"crate_id": crate_id, "path": [format!("c{j}"), format!("Op{j}")], "kind": "struct"}));
+                externals.insert(crate_id.to_string(), json!({"name": format!("c{j}"), "html_root_url": null}));
+                json!({"resolved_path": {"path": format!("c{j}::Op{j}"), "id": pid, "args": null}})
+            }
+        };
+        let (id, it) = item(field_ids[k], Some(format!("f{k}")), json!({"struct_field": ty}));
+        index.insert(id, it);
+    }
+    let (id, it) = item(1, Some(format!("Op{me}")), json!({"struct": {"kind": {"plain": {"fields": field_ids, "has_stripped_fields": false}}, "generics": no_generics, "impls": [3]}}));
+    index.insert(id, it);
+    let (id, it) = item(3, None, json!({"impl": {"is_unsafe": false, "generics": no_generics, "provided_trait_methods": [], "trait": {"path": "Operation", "id": 4, "args": null}, "for": {"resolved_path": {"path": format!("Op{me}"), "id": 1, "args": null}}, "items": [], "is_negative": false, "is_synthetic": false, "blanket_impl": null}}));
+    index.insert(id, it);
+    Ok(serde_json::from_value(json!({"root": 0, "crate_version": null, "includes_private": true, "index": index, "paths": paths, "external_crates": externals, "format_version": 43}))?)
+}
+
+/// Ok(number of crates reachable from the root)
+fn check_graph(graph: &[Vec<Option<usize>>]) -> Result<usize, String> {
+    let n = graph.len();
+    let loaded = RefCell::new(Vec::<String>::new());
+    let reg = catch(|| {
+        crux_cli::codegen::verif_run("c0", |name| {
+            loaded.borrow_mut().push(name.to_string());
+            let i: usize = name.strip_prefix('c').and_then(|x| x.parse().ok()).filter(|i| *i < n).ok_or_else(|| anyhow::anyhow!("the builder asked for a crate nobody mentions: {name}"))?;
+            synthetic_crate(i, &graph[i])
+        })
+        .map_err(|e| format!("{e:#}"))
+        .and_then(|r| serde_json::to_value(r).map_err(|e| e.to_string()))
+    })
+    .map_err(|p| format!("[error] the registry builder panicked on a generated crate graph: {p}"))?
+    .map_err(|e| format!("[error] generated crate graph: {e}"))?;
+    // reachability, independently
+    let mut reach = vec![false; n];
+    let mut stack = vec![0usize];
+    while let Some(i) = stack.pop() {
+        if std::mem::replace(&mut reach[i], true) {
+            continue;
+        }
+        stack.extend(graph[i].iter().flatten().copied());
+    }
+    let mut want = serde_json::Map::new();
+    for i in (0..n).filter(|i| reach[*i]) {
+        let fields: Vec<Value> = graph[i].iter().enumerate().map(|(k, f)| match f {
+            None => serde_json::json!({ format!("f{k}"): "U32" }),
+            Some(j) => serde_json::json!({ format!("f{k}"): {"TYPENAME": format!("Op{j}")} }),
+        }).collect();
+        want.insert(format!("Op{i}"), if fields.is_empty() { serde_json::json!("UNITSTRUCT") } else { serde_json::json!({"STRUCT": fields}) });
+    }
+    let mut got = reg.as_object().cloned().unwrap_or_default();
+    got.remove("Request"); // the synthetic wrapper around an app's Effect; these crates have no app
+    for (name, fmt) in &want {
+        match got.get(name) {
+            None => return Err(format!("[not-closed] generated crate graph {graph:?}: type {name} is reachable from the root crate (and referenced) but not defined in the registry; crates loaded: {:?}", loaded.borrow())),
+            Some(g) if g != fmt => return Err(format!("[graph-type-differs] generated crate graph {graph:?}: {name} is described as {g}, generated as {fmt}")),
+            _ => {}
+        }
+    }
+    if let Some(extra) = got.keys().find(|k| !want.contains_key(*k)) {
+        return Err(format!("[graph-extra-type] generated crate graph {graph:?}: the registry defines {extra}, which is not reachable from the root crate"));
+    }
+    let mut l = loaded.borrow().clone();
+    l.sort();
+    let mut w: Vec<String> = (0..n).filter(|i| reach[*i]).map(|i| format!("c{i}")).collect();
+    w.sort();
+    if l != w {
+        return Err(format!("[graph-crates-loaded] generated crate graph {graph:?}: crates loaded {:?}, reachable from the root {w:?} (each must be loaded exactly once)", loaded.borrow()));
+    }
+    Ok(w.len())
+}
+
 struct RunOut {
     registry: Value,
     load_order: Vec<String>,
@@ -395,9 +490,29 @@ fn agrees_with_traced(reg: &Value) -> Result<usize, String> {
     Ok(n)
 }
 
+/// 2-6 crates; the fields of crate i refer to crates other than i (cycles between crates are allowed: a
+/// description may mention a crate that mentions it back)
+pub fn graph_strategy() -> BoxedStrategy<Case> {
+    (2usize..7)
+        .prop_flat_map(|n| prop::collection::vec(prop::collection::vec(proptest::option::weighted(0.6, 0..n), 1..4), n))
+        .prop_map(|mut g| {
+            for (i, fields) in g.iter_mut().enumerate() {
+                // no type refers to its own crate through an external path; every type has a field (how a
+                // field-less struct is described is not part of what is generated here)
+                for f in fields.iter_mut() {
+                    if *f == Some(i) {
+                        *f = None;
+                    }
+                }
+            }
+            Case { example: 0, renumber_items: false, renumber_crates: false, seed: 0, numbering: 0, graph: Some(g) }
+        })
+        .boxed()
+}
+
 pub fn strategy() -> BoxedStrategy<Case> {
     (0..EXAMPLES.len(), prop::bool::weighted(0.85), any::<bool>(), any::<u64>(), prop_oneof![2 => Just(0u8), 3 => Just(1u8), 1 => Just(2u8), 1 => Just(3u8), 7 => Just(4u8)])
-        .prop_map(|(example, renumber_items, renumber_crates, seed, numbering)| Case { example, renumber_items, renumber_crates, seed, numbering })
+        .prop_map(|(example, renumber_items, renumber_crates, seed, numbering)| Case { example, renumber_items, renumber_crates, seed, numbering, graph: None })
         .boxed()
 }
 
@@ -408,7 +523,7 @@ fn main() {
     vkit::MAX_SHRINK_ITERS.store(24, std::sync::atomic::Ordering::Relaxed);
     let stats = Stats::new();
     let orders: std::sync::Mutex<Vec<HashSet<Vec<String>>>> = std::sync::Mutex::new(vec![HashSet::new(); EXAMPLES.len()]);
-    let identity = |example| Case { example, renumber_items: false, renumber_crates: false, seed: 0, numbering: 0 };
+    let identity = |example| Case { example, renumber_items: false, renumber_crates: false, seed: 0, numbering: 0, graph: None };
     let bases = || {
         BASES.get_or_init(|| {
             std::thread::scope(|s| {
@@ -428,6 +543,18 @@ fn main() {
         })
     };
     let check = |c: &Case| -> Result<(), String> {
+        if let Some(graph) = &c.graph {
+            if graph.is_empty() || graph.iter().any(|f| f.is_empty()) || graph.iter().flatten().flatten().any(|j| *j >= graph.len()) {
+                return Ok(());
+            }
+            let reachable = check_graph(graph)?;
+            let depth3 = graph[0].iter().flatten().any(|j| graph[*j].iter().flatten().any(|k| !graph[0].contains(&Some(*k)) && *k != 0));
+            stats.case(c, depth3, &["description:generated-crate-graph", if depth3 { "graph:a-crate-only-a-dependency-names" } else { "graph:flat" }, match reachable { 1 => "graph:1-crate", 2 | 3 => "graph:2-3-crates", _ => "graph:>=4-crates" }]);
+            if depth3 && stats.wants_sample() {
+                stats.sample(|| serde_json::json!({"case": c}));
+            }
+            return Ok(());
+        }
         let base = &bases()[c.example];
         let out = run(c, false).map_err(|e| format!("[error] {}: {e}", EXAMPLES[c.example]))?;
         if out.registry != base.registry {
@@ -482,7 +609,11 @@ fn main() {
                     std::process::exit(1);
                 }
             }
-            let outcome = vkit::run_prop(prop, vkit::workers_for(tier), tier.pick(40, 400), strategy, check);
+            // generated crate graphs first (cheap: thousands of them), then the bundled descriptions
+            let outcome = match vkit::run_prop("C20-graphs", vkit::workers_for(tier), tier.pick(400, 20_000), graph_strategy, check) {
+                Outcome::Held => vkit::run_prop(prop, vkit::workers_for(tier), tier.pick(40, 400), strategy, check),
+                o => o,
+            };
             stats.set_extra("distinct_load_orders_per_description", serde_json::json!(EXAMPLES.iter().zip(orders.lock().unwrap().iter()).map(|(e, o)| (e.to_string(), o.len())).collect::<BTreeMap<_, _>>()));
             let outcome = match outcome {
                 Outcome::Held if stats.distinct_nontrivial() < 2 => Outcome::Inconclusive("generator produced no non-trivial case".into()),
@@ -492,7 +623,7 @@ fn main() {
                 Report {
                     prop,
                     tier,
-                    rule: "the 7 bundled descriptions x transformations {consistent renumbering of every item id - injectively into random numbers, as a random permutation of 0..n per crate (ids of different crates then collide constantly), order-reversing, shifted, or as shipped but for 2-12 targeted swaps per crate that give an item the number an item of the same kind (struct, enum, impl, associated type, field, variant, trait, alias; half of the time also of the same name) carries in another crate of the run - (through a serde adapter that intercepts the newtype Id wherever it occurs, map keys included), renumbering of external crate ids, fresh hash order of all maps by re-deserialisation}, applied to the root crate and to every dependent crate the builder loads; non-trivial = the transformation changed the load order of dependent crates, moved >= 100 ids, or made >= 2 targeted swaps; distinct = distinct (description, transformation); clauses closed / variant order / traced schema are evaluated on each untransformed registry and carried to the transformed ones by the equality",
+                    rule: "the 7 bundled descriptions x transformations {consistent renumbering of every item id - injectively into random numbers, as a random permutation of 0..n per crate (ids of different crates then collide constantly), order-reversing, shifted, or as shipped but for 2-12 targeted swaps per crate that give an item the number an item of the same kind (struct, enum, impl, associated type, field, variant, trait, alias; half of the time also of the same name) carries in another crate of the run - (through a serde adapter that intercepts the newtype Id wherever it occurs, map keys included), renumbering of external crate ids, fresh hash order of all maps by re-deserialisation}, applied to the root crate and to every dependent crate the builder loads; non-trivial = the transformation changed the load order of dependent crates, moved >= 100 ids, or made >= 2 targeted swaps; distinct = distinct (description, transformation); plus generated graphs of 2-6 small synthetic crates (one operation type each, fields of type u32 or of another crate's type, the same item ids in every crate, crates that only a dependency names, cycles between crates): exactly the crates reachable from the root are loaded, each once, and the registry holds exactly their types as generated; clauses closed / variant order / traced schema are evaluated on each untransformed registry and carried to the transformed ones by the equality",
                     assumptions: vec![
                         "declaration order is read from the description's own variant list (rustdoc keeps source order); enums whose name is ambiguous across crates or that use serde rename are checked for contiguity only".into(),
                         "the traced schema is serde-reflection's registry of the shipped protocol types, compared as JSON with the CLI's containers of the same name".into(),
